@@ -6,6 +6,10 @@ Source values: tag 0 int, 1 std::string, 2 long, 3 Name; n >= 0.  The harness di
 range (digest3 below == coq/AnyIdModel.v digest3 == harness/anyid.cpp digest3); the harness Storage
 keeps (tag mod 2, n).
 """
+import os
+import subprocess
+import time
+
 import vlib
 
 LAWS = ['eq_refl', 'eq_sym', 'eq_trans', 'lt_irrefl', 'lt_trans', 'incomp_trans', 'incomp_is_eq', 'hash_compat']
@@ -130,6 +134,62 @@ def pair_stats(case):
 
 
 # ---------------------------------------------------------------------------------------------
+# implementation runner: like vlib.run_impl, but a hang is attributed to the case that was running
+# (the harness flushes after every `case` and `end` line) and the total cost of hangs is bounded —
+# with a broken operator< the std::map inside the dispatcher has undefined behaviour
+
+def run_impl(ctx, binary, case_texts, ids, per_batch=20.0, per_case=0.02, max_restarts=12):
+    res = {}
+    pending = list(ids)
+    restarts = 0
+    scratch = os.path.join(ctx.builddir, 'anyid_impl_%d' % os.getpid())
+    while pending:
+        if restarts > max_restarts:
+            for c in pending:
+                res[c] = ['<skipped>']
+            break
+        restarts += 1
+        text = ''.join(case_texts[i] for i in pending)
+        with open(scratch + '.in', 'w') as fh:
+            fh.write(text)
+        hung = False
+        with open(scratch + '.in') as fin, open(scratch + '.out', 'w') as fout, open(scratch + '.err', 'w') as ferr:
+            p = subprocess.Popen([binary], stdin=fin, stdout=fout, stderr=ferr, env=vlib.SAN_ENV)
+            try:
+                rc = p.wait(timeout=per_batch + per_case * len(pending))
+            except subprocess.TimeoutExpired:
+                p.kill()
+                p.wait()
+                hung = True
+                rc = -9
+        out = open(scratch + '.out', errors='replace').read()
+        err = open(scratch + '.err', errors='replace').read()
+        cases, order = vlib.parse_traces(out)
+        done = [c for c in order if cases[c] and cases[c][-1] == 'end']
+        for c in done:
+            res[c] = cases[c]
+        if rc == 0 and len(done) == len(pending):
+            break
+        bad = None
+        for c in pending:
+            if c not in done:
+                bad = c
+                break
+        if bad is None:
+            res['__exit__'] = ['CRASH ' + (vlib.sanitizer_summary(err) or 'exit status %d' % rc)]
+            break
+        why = 'HANG' if hung else 'CRASH ' + (vlib.sanitizer_summary(err) or 'exit status %d' % rc)
+        res[bad] = cases.get(bad, []) + [why]
+        pending = pending[pending.index(bad) + 1:]
+    for f in ('.in', '.out', '.err'):
+        try:
+            os.unlink(scratch + f)
+        except OSError:
+            pass
+    return res
+
+
+# ---------------------------------------------------------------------------------------------
 # the property's direct oracle: reads only the IMPLEMENTATION's trace and the case
 
 def parse_trace(lines):
@@ -162,16 +222,17 @@ def oracle(case, lines):
     (empty storage), and `a dispatch reaches exactly the listeners registered under == ids` for the
     three dispatchers."""
     bad = []
-    for l in lines:
-        if l.startswith('CRASH') or l == 'HANG' or l == '<missing>':
-            return ['implementation: ' + l]
+    if lines == ['<skipped>']:
+        return []
+    died = [l for l in lines if l.startswith('CRASH') or l == 'HANG' or l == '<missing>']
+    lines = [l for l in lines if l not in died]
     t = parse_trace(lines)
     ids = case['ids']
     n = len(ids)
     if t['other']:
         return ['unexpected line: ' + t['other'][0]]
     if t['dig'] is None or len(t['dig']) != n or any(len(t[m]) != n or any(len(r) != n for r in t[m].values()) for m in ('eq', 'lt', 'hh')):
-        return ['incomplete trace']
+        return ['implementation died: ' + died[0]] if died else ['incomplete trace']
     eq, lt, hh, dig = t['eq'], t['lt'], t['hh'], t['dig']
     for i in range(n):
         if dig[i] != digest3(*ids[i]):
@@ -202,24 +263,29 @@ def oracle(case, lines):
     for kind in KINDS:
         runs = t['run'].get(kind, [])
         if [i for i, _ in runs] != list(case['dispatch']):
-            bad.append('dispatcher %s: run lines do not match the dispatch list' % kind)
-            continue
+            if not died:
+                bad.append('dispatcher %s: run lines do not match the dispatch list' % kind)
+            runs = []
         for i, ran in runs:
             want = [p + 1 for p, li in enumerate(case['listen']) if eq[i][li]]
             if ran != want:
                 bad.append('dispatcher %s: dispatch under id %d ran listeners %s, the listeners registered under == ids are %s' % (kind, i, ran, want))
                 break
+    if died:
+        bad.append('implementation died: ' + died[0])
     return bad
 
 
 # ---------------------------------------------------------------------------------------------
 
-def shrink(case, still_fails, max_tests=300):
+def shrink(case, still_fails, max_tests=300, max_seconds=120.0):
     tests = [0]
+    t0 = time.time()
 
     def ok(c):
         tests[0] += 1
-        if tests[0] > max_tests:
+        if tests[0] > max_tests or time.time() - t0 > max_seconds:
+            tests[0] = max_tests + 1
             return False
         try:
             return still_fails(c)
@@ -266,11 +332,11 @@ def impl_keep(l):
     return True
 
 
-def evaluate(binary, case, model_mode='anyid'):
+def evaluate(ctx, binary, case, model_mode='anyid'):
     """(model trace, impl trace, model/impl difference or None, oracle findings)"""
     t = case_text('0', case)
     m = vlib.run_model(model_mode, t, driver='anyid').get('0', ['error'])
-    im = vlib.run_impl(binary, {'0': t}, ['0'], timeout=60).get('0', ['<missing>'])
+    im = run_impl(ctx, binary, {'0': t}, ['0'], per_batch=8.0, max_restarts=1).get('0', ['<missing>'])
     d = vlib.first_diff(m, im) if 'error' not in m else None
     return m, im, d, oracle(case, im)
 
@@ -303,13 +369,17 @@ def correspond(ctx, binaries, cases, what='AnyId'):
     stats['distinct_nontrivial'] = len(distinct)
     reported = 0
     for bname, binary in binaries.items():
-        impl = vlib.run_impl(binary, texts, usable)
+        impl = run_impl(ctx, binary, texts, usable)
+        stats['skipped_after_repeated_crashes'] = stats.get('skipped_after_repeated_crashes', 0) + sum(1 for i in usable if impl.get(i) == ['<skipped>'])
         if '__exit__' in impl:
             ctx.violation(''.join(texts[i] for i in usable[:20]), '%s: harness %s: %s at process exit (not attributable to one case)' % (what, bname, impl['__exit__'][0]))
             reported += 1
         for i in usable:
             stats['compared'] += 1
             im = impl.get(i, ['<missing>'])
+            if im == ['<skipped>']:
+                stats['compared'] -= 1
+                continue
             d = vlib.first_diff(model[i], im)
             orc = oracle(cases[int(i)], im)
             if d is None and not orc:
@@ -321,13 +391,13 @@ def correspond(ctx, binaries, cases, what='AnyId'):
             if reported >= 3:
                 continue
             reported += 1
-            by_oracle = bool(orc)
+            key = orc[0].split(':')[0] if orc else None
 
-            def still(c, binary=binary, by_oracle=by_oracle):
-                m, im2, d2, o2 = evaluate(binary, c)
-                return bool(o2) if by_oracle else (d2 is not None)
+            def still(c, binary=binary, key=key):
+                m, im2, d2, o2 = evaluate(ctx, binary, c)
+                return any(o.startswith(key) for o in o2) if key is not None else (d2 is not None)
             small = shrink(cases[int(i)], still)
-            m, im2, d2, o2 = evaluate(binary, small)
+            m, im2, d2, o2 = evaluate(ctx, binary, small)
             replay = case_text('0', small) + '# harness: %s\n# model : %s\n# impl  : %s\n# oracle: %s\n' % (
                 bname, ' | '.join(m), ' | '.join(im2), ' || '.join(o2) if o2 else 'no law violated')
             if o2:
@@ -344,7 +414,7 @@ def replay_file(ctx, path, binaries):
     bad = 0
     for case in cases:
         for bname, binary in binaries.items():
-            m, im, d, orc = evaluate(binary, case)
+            m, im, d, orc = evaluate(ctx, binary, case)
             print('model : ' + ' | '.join(m))
             print('impl %s: %s' % (bname, ' | '.join(im)))
             print('oracle: ' + (' || '.join(orc) if orc else 'no law violated'))
